@@ -588,8 +588,19 @@ class Evaluator:
         v = ("op", BINOPS.get(type(st.op), "?"), old, self.expr(st.value))
         self.assign(st.target, v, st)
 
+    MUTATORS = ("append", "extend", "add", "update", "insert", "remove", "clear",
+                "setdefault", "discard")
+
     def s_Expr(self, st):
         t = self.expr(st.value)
+        # x.append(v) on a local accumulator: x now denotes the mutated object
+        v = st.value
+        if isinstance(v, ast.Call) and isinstance(v.func, ast.Attribute) \
+                and v.func.attr in self.MUTATORS and isinstance(v.func.value, ast.Name) \
+                and v.func.value.id in self.env.vars and t[0] == "call":
+            old = self.env.vars[v.func.value.id]
+            if old[0] in ("list", "dict", "set", "mut", "comp", "carried", "loop", "phi"):
+                self.env.vars[v.func.value.id] = ("mut", old, v.func.attr, t[2], t[3])
         if t[0] == "call" or (t[0] not in ("c",)):
             self.res.effects.append(Effect(t, st, self.cond))
 
@@ -1086,6 +1097,9 @@ def pretty(t, depth: int = 0) -> str:
         return f"<{t[1]}>"
     if tag == "fresh":
         return f"{p(t[2])}@{t[1]}"
+    if tag == "mut":
+        args = [p(a) for a in t[3]] + [f"{k}={p(v)}" for k, v in t[4]]
+        return f"{p(t[1])}.{t[2]}!({', '.join(args)})"
     if tag == "carried":
         return f"carried[{t[1] if isinstance(t[1], str) else p(t[1])}]"
     return tag + "(" + ", ".join(p(x) if isinstance(x, tuple) else repr(x) for x in t[1:]) + ")"
